@@ -21,12 +21,12 @@ typedef led::alloc<unsigned char> alloc_t;
 typedef org<ORG, alloc_t>::image_t image_t;
 typedef image_t::view_t view_t;
 typedef image_t::value_type value_t;
-static const bool is_planar_org = (ORG >= 9 && ORG <= 11);
+static const bool is_planar_org = (ORG >= 9 && ORG <= 11) || ORG == 25 || ORG == 26;
 // weakest address alignment a conforming byte allocator may return for this organisation's pixels:
 // byte-addressed data (8-bit channels, packed-in-u8, bit-aligned) 1, otherwise the channel/bit-field alignment
 template <bool Planar, class V> struct elem_align { static const size_t value = alignof(typename V::value_type); };
 template <class V> struct elem_align<true, V> { static const size_t value = alignof(typename gil::channel_type<V>::type); };
-static const size_t ELEM_ALIGN = (ORG >= 16) ? 1 : elem_align<is_planar_org, view_t>::value;
+static const size_t ELEM_ALIGN = (ORG >= 16 && ORG <= 24) ? 1 : elem_align<is_planar_org, view_t>::value;
 static std::string g_org;
 static uint64_t n_touch = 0, n_views = 0;
 static uint64_t g_sink = 0;
@@ -105,7 +105,7 @@ struct visitor {
     template <class W> void operator()(W const& d, mapping const& m) {
         touch_all(d);
         if (algos || m.steps.size() <= 1) { algorithms(d); self_equal(d); }
-        channel(d, m, std::integral_constant<bool, (ORG <= 11)>());
+        channel(d, m, std::integral_constant<bool, (ORG <= 11 || ORG >= 25)>());
     }
     template <class W> void channel(W const& d, mapping const& m, std::true_type) {
         int k = (int)((m.steps.size() + m.w) % pt::nch<typename W::value_type>::value);
@@ -124,7 +124,7 @@ static void check_ledger(const char* where, bool expect_empty) {
 }
 
 // the "Pixel" parameter of image<>: the value type, except for bit-aligned images where it is the reference proxy
-typedef std::conditional<(ORG >= 16), view_t::reference, value_t>::type fill_t;
+typedef std::conditional<(ORG >= 16 && ORG <= 24), view_t::reference, value_t>::type fill_t;
 static value_t g_fill_storage;
 static fill_t fill_value() { pt::set_pix(g_fill_storage, pt::pattern_pix(vh::seed(), 3, 5, 6, pt::nch<value_t>::value)); return fill_t(g_fill_storage); }
 
@@ -208,6 +208,9 @@ template <> struct raw<1> {    // planar rgb8 / rgba16 / cmyk32f
         return gil::planar_cmyk_view(w, h, (ch_t*)b[0], (ch_t*)b[1], (ch_t*)b[2], (ch_t*)b[3], rb);
     }
 };
+template <> struct raw<3> {   // planar devicen: planar_devicen_view does not instantiate upstream; no raw-buffer factory to exercise
+    template <class V> static void run(long, long, int, gb::side_t, bool) {}
+};
 template <> struct raw<2> {   // bit-aligned view over a raw buffer of exactly h x ceil(w*bits/8) bytes
     template <class V> static void run(long w, long h, int depth, gb::side_t side, bool use_guard) {
         typedef typename V::x_iterator xit;
@@ -260,7 +263,7 @@ int main(int argc, char** argv) {
                 if (!vh::begin_case(vh::cat(g_org, ".raw-buffer"), vh::cat(w, "x", h, side ? "-leading" : "-trailing"))) continue;
                 n_touch = 0; n_views = 0;
                 int depth = (w * h <= 25) ? 2 : (w * h <= 100 ? 1 : 0);
-                raw<(ORG >= 16 ? 2 : (is_planar_org ? 1 : 0))>::run<view_t>(w, h, depth, side ? gb::LEADING : gb::TRAILING, backing != 0);
+                raw<(ORG >= 25 ? 3 : (ORG >= 16 ? 2 : (is_planar_org ? 1 : 0)))>::run<view_t>(w, h, depth, side ? gb::LEADING : gb::TRAILING, backing != 0);
                 vh::evals(n_touch); vh::distinct(n_views);
             }
         }
